@@ -18,8 +18,9 @@ def run(ctx):
     jobs, pk = [], []
     foreign_imports = ["from logging.handlers import SocketHandler", "from wsgiref.handlers import SimpleHandler",
                        "from collections import OrderedDict", "from xml.dom import Node", "from xml.etree.ElementTree import Element"]
+    import findings
     for i in range(n):
-        p = gen_pkg.gen_package(rng, i, style="plaintext", nmods=2)
+        p = findings.rename_on_model()[0] if i == 0 else gen_pkg.gen_package(rng, i, style="plaintext", nmods=2)
         # references to classes of other libraries: placeholder stubs (create once, then append)
         m = p.modules[0]
         for k, imp in enumerate(rng.sample(foreign_imports, rng.randrange(2, 5))):
